@@ -14,18 +14,19 @@ import (
 )
 
 type Gen struct {
-	prog    *ssa.Program
-	pkgs    map[string]*packages.Package
-	ssaPkgs map[string]*ssa.Package
-	specs   *Specs
-	reg     *SortReg
-	fset    *token.FileSet
-	srcLine map[string][]string
-	genFile map[string]bool
-	repo    string // repository root the packages were loaded from
-	guardMemo map[*ssa.Function][]guardUse
-	pureMemo  map[*ssa.Function]bool
-	pureWhy   string
+	prog       *ssa.Program
+	pkgs       map[string]*packages.Package
+	ssaPkgs    map[string]*ssa.Package
+	specs      *Specs
+	reg        *SortReg
+	fset       *token.FileSet
+	srcLine    map[string][]string
+	genFile    map[string]bool
+	repo       string // repository root the packages were loaded from
+	guardMemo  map[*ssa.Function][]guardUse
+	pureMemo   map[*ssa.Function]bool
+	pureWhy    string
+	closureIdx map[string]*ssa.Function
 }
 
 type Closure struct {
@@ -753,7 +754,7 @@ func (u *UnitGen) anchoredAsserts(fr *Frame, st *State, file string, line int) {
 	// ghost snapshots: "at <anchor> ghost name = expr" stores the value of expr before the line executes
 	for i := range u.contract.Ghosts {
 		gu := &u.contract.Ghosts[i]
-		if !strings.Contains(lines[line-1], gu.Anchor) {
+		if gu.Anchor == "" || !strings.Contains(lines[line-1], gu.Anchor) {
 			continue
 		}
 		gu.Hits++
@@ -791,6 +792,29 @@ func (u *UnitGen) anchoredAsserts(fr *Frame, st *State, file string, line int) {
 		}
 		u.assertCtr[name]++
 		full := fmt.Sprintf("at:%s#%d", name, u.assertCtr[name])
+		if a.Check {
+			// proved where it stands, never used afterwards: the facts produced while evaluating the
+			// clause (typing and axiom instances over its terms) are scoped to this one obligation
+			start := len(u.events)
+			saved := map[string]bool{}
+			for k := range u.g.reg.factSeen {
+				saved[k] = true
+			}
+			ob := u.oblige(st, "check", full, a.Text, env.evalBool(a.E))
+			for k := range u.g.reg.factSeen {
+				if !saved[k] {
+					delete(u.g.reg.factSeen, k)
+				}
+			}
+			if ob != nil {
+				for j := start; j < len(u.events); j++ {
+					if u.events[j].Kind == EvAssume {
+						u.events[j].Scope = ob
+					}
+				}
+			}
+			continue
+		}
 		u.oblige(st, "assert", full, a.Text, env.evalBool(a.E))
 	}
 }
